@@ -143,7 +143,14 @@ where
 
     let pcs = config.pcs();
     let trace_domain = pcs.natural_domain_for_degree(degree);
-    let init_trace_domain = pcs.natural_domain_for_degree(degree >> (config.is_zk()));
+    // The claimed degree includes the ZK doubling: a proof claiming fewer bits than that
+    // adjustment has no initial trace domain.
+    let base_degree_bits = degree_bits.checked_sub(config.is_zk()).ok_or_else(|| {
+        VerificationError::InvalidProofShape(
+            "degree bits smaller than ZK adjustment".to_string(),
+        )
+    })?;
+    let init_trace_domain = pcs.natural_domain_for_degree(1 << base_degree_bits);
 
     let quotient_domain =
         pcs.create_disjoint_domain(trace_domain, 1 << (degree_bits + log_quotient_degree));
